@@ -6,6 +6,7 @@ import (
 	"fmt"
 	"os"
 	"runtime"
+	"runtime/pprof"
 	"sync"
 	"sync/atomic"
 	"time"
@@ -114,6 +115,25 @@ func main() {
 	}
 	restore := quietStdout()
 	defer restore()
+	if pf := os.Getenv("C15_PROF"); pf != "" {
+		f, _ := os.Create(pf)
+		pprof.StartCPUProfile(f)
+		defer pprof.StopCPUProfile()
+		go func() { time.Sleep(20 * time.Second); pprof.StopCPUProfile(); f.Close(); os.Exit(3) }()
+	}
+	if os.Getenv("C15_BENCH") != "" {
+		var cases []*QRCase
+		structCases("range_streams", 3, func(c *QRCase) { cases = append(cases, c) })
+		t0 := time.Now()
+		for _, c := range cases[:500] {
+			runQR(c)
+		}
+		fmt.Fprintln(os.Stderr, "sequential 500:", time.Since(t0))
+		t0 = time.Now()
+		parallel(cases[:1600], func(c *QRCase) { runQR(c) })
+		fmt.Fprintln(os.Stderr, "parallel 1600:", time.Since(t0))
+		os.Exit(3)
+	}
 	groups := allGroups(r)
 	if r.Replay != "" {
 		replay(r, groups)
